@@ -20,7 +20,7 @@ RULE = (
     "disjoint blocks of a Liesel model (regression coefficients, Exp-transformed variance, degenerate-MVN smooth with "
     "its tau2, discrete indicator; weak intermediates; derived nodes that feed no distribution; optionally a position key "
     "that collides with another variable's name; user kernel identifiers in non-alphabetical order) and of a dict model; step sizes giving acceptances and "
-    "rejections; adaptation, burn-in and posterior epochs; 2 chains. Also: kernel objects re-used from another model via set_model; engines put together by hand from KernelSequence(list) whose list the caller keeps modifying; eager kernel-by-kernel transitions with rejected interface calls in between and tau2 started from an integer literal. non-trivial = >= 2 kernels and every MH-type "
+    "rejections; adaptation, burn-in and posterior epochs; 2 chains. Also: kernel objects re-used from another model via set_model; engines put together by hand from KernelSequence(list) whose list the caller keeps modifying; eager kernel-by-kernel transitions with rejected interface calls in between and tau2 started from an integer literal. Round 5: the deprecated lsl.GooseModel interface on a model with auto-update off; tau2 kernel re-run with the same key on a state with another prior scale. non-trivial = >= 2 kernels and every MH-type "
     "kernel both accepted and rejected; distinct by (kernel order, kinds, step sizes)"
 )
 REQUIRED = ["kernel_starts_from_predecessor_output", "iteration_starts_from_previous_output", "only_own_keys_change",
